@@ -33,7 +33,7 @@ type Profile struct {
 }
 
 var Profiles = map[string]Profile{
-	"general": {Types: []string{"T1", "T2", "T3", "T4", "U1"}, Ifaces: []string{"I1", "I1", "I12"}, Names: []string{"", "", "a", "b"}, Subs: []string{"", "", "", "s", "s", "t", "s=x"},
+	"general": {Types: []string{"T1", "T2", "T3", "T4", "U1"}, Ifaces: []string{"I1", "I1", "I12"}, Names: []string{"", "", "a", "b"}, Subs: []string{"", "", "", "", "s", "s", "t", "s=x", "S", "p%d"},
 		MaxIn: 2, MaxOut: 2, MaxTIn: 3, MaxInputs: 3, MaxConvs: 4, Forms: []string{"pos", "struct", "ptr", "built"}, FailProb: 0.1, OnceProb: 0.15,
 		MultiMax: -1, Modes: []string{"call"}, GenProb: 0.05, DefProb: 0.15, TargetOuts: 2},
 	"nosub": {Types: []string{"T1", "T2", "T3", "T4"}, Ifaces: []string{"I1"}, Names: []string{"", "", "a", "b"}, Subs: []string{""},
@@ -48,10 +48,13 @@ var Profiles = map[string]Profile{
 	"multi": {Types: []string{"T1", "T2", "T3", "T4", "T5"}, Ifaces: []string{"I1"}, Names: []string{"", "", "", "a"}, Subs: []string{"", "", "", "s"},
 		MaxIn: 3, MaxOut: 2, MaxTIn: 2, MaxInputs: 3, MaxConvs: 4, Forms: []string{"pos", "struct", "ptr", "built"}, FailProb: 0.05, OnceProb: 0.1,
 		MultiMax: -1, Modes: []string{"call"}, TargetOuts: 1},
+	"gens": {Types: []string{"T1", "T2", "T3", "T4"}, Ifaces: []string{"I1"}, Names: []string{"", "", "a"}, Subs: []string{"", "", "s"},
+		MaxIn: 1, MaxOut: 2, MaxTIn: 2, MaxInputs: 3, MaxConvs: 3, Forms: []string{"pos", "struct", "ptr", "built"}, FailProb: 0.05, OnceProb: 0.1,
+		MultiMax: -1, Modes: []string{"call"}, GenProb: 0.9, TargetOuts: 1},
 	"fail": {Types: []string{"T1", "T2", "T3", "T4"}, Ifaces: []string{"I1"}, Names: []string{"", "", "a"}, Subs: []string{"", "", "", "s"},
 		MaxIn: 2, MaxOut: 2, MaxTIn: 2, MaxInputs: 2, MaxConvs: 4, Forms: []string{"pos", "struct", "ptr", "built"}, FailProb: 0.4, OnceProb: 0.15,
 		MultiMax: -1, Modes: []string{"call"}, TargetOuts: 1},
-	"redef": {Types: []string{"T1", "T2", "T3", "T4"}, Names: []string{"", "", "", "a", "a", "b", "x-y"}, Subs: []string{""},
+	"redef": {Types: []string{"T1", "T2", "T3", "T4", "U1", "P1"}, Names: []string{"", "", "", "a", "a", "b", "x-y"}, Subs: []string{""},
 		MaxIn: 1, MaxOut: 1, MaxTIn: 2, MaxInputs: 2, MaxConvs: 4, Forms: []string{"pos", "struct", "ptr"}, FailProb: 0, OnceProb: 0.1,
 		MultiMax: 0, Modes: []string{"redefine"}, TargetOuts: 2, DefProb: 0.25},
 	"redeffail": {Types: []string{"T1", "T2", "T3", "T4"}, Names: []string{"", "", "a", "b"}, Subs: []string{""},
@@ -72,7 +75,7 @@ var Profiles = map[string]Profile{
 	"built": {Types: []string{"T1", "T2", "T3", "T4"}, Ifaces: []string{"I1"}, Names: []string{"", "", "", "a", "a", "b", "x-y"}, Subs: []string{"", "", "s"},
 		MaxIn: 2, MaxOut: 2, MaxTIn: 3, MaxInputs: 3, MaxConvs: 4, Forms: []string{"built"}, FailProb: 0.15, OnceProb: 0.15,
 		MultiMax: -1, Modes: []string{"call", "call", "call", "redefine"}, TargetOuts: 2},
-	"wild": {Types: []string{"T1", "T2", "T3", "T4", "T5", "U1"}, Ifaces: []string{"I1", "I2", "I12"}, Names: []string{"", "", "", "a", "a", "b", "b", "c", "x-y", "_z"}, Subs: []string{"", "", "", "s", "s", "t", "s=x"},
+	"wild": {Types: []string{"T1", "T2", "T3", "T4", "T5", "U1", "P1"}, Ifaces: []string{"I1", "I2", "I12"}, Names: []string{"", "", "", "a", "a", "b", "b", "c", "x-y", "_z"}, Subs: []string{"", "", "", "", "s", "s", "t", "s=x", "S", "p%d"},
 		MaxIn: 3, MaxOut: 3, MaxTIn: 3, MaxInputs: 4, MaxConvs: 5, Forms: []string{"pos", "struct", "ptr", "built"}, FailProb: 0.1, OnceProb: 0.2,
 		MultiMax: -1, Modes: []string{"call", "call", "convert", "redefine"}, GenProb: 0.15, DefProb: 0.2, BadProb: 0.1, DupInputs: true, TargetOuts: 2},
 }
